@@ -305,7 +305,38 @@ func (v *FnVC) callCommon(c *ssa.CallCommon, val ssa.Value, pos token.Pos, how s
 	} else {
 		v.ghostAtCall(site, "after", pnames, args)
 	}
+	if how == "call" {
+		v.frameCuts(site, pre)
+	}
 	return results
+}
+
+// frameCuts: in a function with a modifies-since clause, the frame condition of every such heap the call
+// has just changed is obliged right after the call and then assumed (a cut point): the frame obligations
+// at the returns then span one call each instead of the whole path.
+func (v *FnVC) frameCuts(site string, pre State) {
+	if v.dry || v.fc.Extern || v.fc.SinceGhost == "" || v.panicSite != "" {
+		return
+	}
+	since := v.sinceKeys(v.fc)
+	var keys []string
+	for _, key := range sortedKeys(v.st) {
+		if since[key] && pre[key] != v.st[key] {
+			keys = append(keys, key)
+		}
+	}
+	if len(keys) == 0 {
+		return
+	}
+	goals := v.frameGoals(keys)
+	for _, key := range sortedKeys(goals) {
+		v.behavClause = false
+		v.oblige("frame-cut", sanitize(key)+"@after:"+site, goals[key], nil, true, "writes outside the modifies clause (cut point after the call): "+key, 0)
+		if v.frameOK == nil {
+			v.frameOK = map[string]bool{}
+		}
+		v.frameOK[v.st[key]] = true
+	}
 }
 
 // paramSource: the name of the parameter (of the enclosing function) a value was read from.
